@@ -323,6 +323,11 @@ def _patch_runner(mod):
 
     # resume_tests: report poll counters when it returns
     orig_resume = mod.resume_tests
+    _YIELD_TARGETS[:] = [
+        mod.spawn_layer_in_subprocess.__code__, orig_resume.__code__,
+        mod.DeferredSubprocessResult.write.__code__,
+        mod.KeepaliveSubprocessResult.write.__code__,
+        mod.ImmediateSubprocessResult.write.__code__]
 
     def resume_tests(*a, **kw):
         try:
@@ -332,6 +337,54 @@ def _patch_runner(mod):
             emit('resume.done', polls=st.polls, max_alive=st.max_alive,
                  spawned=st.spawned, alive=st.alive)
     mod.resume_tests = resume_tests
+
+
+# ------------------------------------------------ yield injection (C06/C07)
+
+_YIELD_TARGETS = []
+_YIELD_TOOL = 4
+
+
+def enable_yield_injection(seed, max_ms=2.0, p=0.25):
+    """sys.monitoring LINE callback restricted to the parent's
+    subprocess-handling code objects: sleeps 0..max_ms at statement starts
+    of preemptible threads (diversifies thread interleavings)."""
+    mon = getattr(sys, 'monitoring', None)
+    if mon is None or not _YIELD_TARGETS:
+        return False
+    import random
+    import time
+    rng = random.Random(seed)
+    lock = threading.Lock()
+
+    def cb(code, line):
+        with lock:
+            COUNTERS['yield.lines'] = COUNTERS.get('yield.lines', 0) + 1
+            r = rng.random()
+            d = rng.random() * max_ms / 1000.0
+        if r < p:
+            time.sleep(d)
+    try:
+        mon.use_tool_id(_YIELD_TOOL, 'ztr-yield')
+    except ValueError:
+        pass
+    mon.register_callback(_YIELD_TOOL, mon.events.LINE, cb)
+    for code in _YIELD_TARGETS:
+        mon.set_local_events(_YIELD_TOOL, code, mon.events.LINE)
+    return True
+
+
+def disable_yield_injection():
+    mon = getattr(sys, 'monitoring', None)
+    if mon is None:
+        return
+    try:
+        for code in _YIELD_TARGETS:
+            mon.set_local_events(_YIELD_TOOL, code, 0)
+        mon.register_callback(_YIELD_TOOL, mon.events.LINE, None)
+        mon.free_tool_id(_YIELD_TOOL)
+    except ValueError:
+        pass
 
 
 def _lname(layer):
